@@ -13,6 +13,7 @@ import (
 	"strconv"
 	"strings"
 	"sync"
+	"sync/atomic"
 	"time"
 
 	"github.com/vimeo/dials"
@@ -63,6 +64,14 @@ func (c *Cfg) Verify() error {
 		r.mu.Lock()
 		r.verifs = append(r.verifs, verifCall{cfg: *c, ok: ok})
 		r.mu.Unlock()
+	}
+	if r := current(); r != nil && r.parkInVerify.Load() {
+		// the schedule wants something to happen while the monitor is inside Verify
+		if id := goid(); func() bool { r.mu.Lock(); defer r.mu.Unlock(); return r.goids[id] == whoMon && r.monSeen }() {
+			g := r.gate(whoMon)
+			r.evch <- event{who: whoMon, kind: evPark, point: "mon.verify"}
+			<-g
+		}
 	}
 	if ok {
 		return nil
@@ -122,13 +131,15 @@ type runner struct {
 	evch   chan event
 	mail   map[int][]event
 
-	d        dialsAPI
-	ctx      context.Context
-	cancel   context.CancelFunc
-	serials  map[*Cfg]uint64
-	srcs     []*source
-	watchdog time.Duration
-	hardStop time.Duration
+	d            dialsAPI
+	ctx          context.Context
+	cancel       context.CancelFunc
+	serials      map[*Cfg]uint64
+	srcs         []*source
+	watchdog     time.Duration
+	parkInVerify atomic.Bool // Verify, when called by the monitor goroutine, stops like a hook
+	monSeen      bool        // the monitor goroutine has identified itself at a hook
+	hardStop     time.Duration
 }
 
 func newRunner() *runner {
@@ -163,6 +174,7 @@ func (r *runner) whoAmI(point string) int {
 	switch {
 	case strings.HasPrefix(point, "mon."):
 		r.goids[id] = whoMon
+		r.monSeen = true
 		return whoMon
 	case strings.HasPrefix(point, "cb."):
 		r.goids[id] = whoCb
